@@ -483,6 +483,131 @@ func execOp(s *Sexp) string {
 			}
 			return "ok " + FromReflect(out.Elem(), c.td).String()
 		})
+	case "app":
+		// (app cfg T tag V xPREFIX cap mode): Marshal(prefix-with-spare-capacity, v), by pointer or by value, twice re-using the buffer
+		c, err := parseCtx(s)
+		if err != nil {
+			return "bad-op " + err.Error()
+		}
+		v, err := parseVal(s.List[4])
+		if err != nil {
+			return "bad-op " + err.Error()
+		}
+		pre, err := unhx(arg(5))
+		if err != nil {
+			return "bad-op"
+		}
+		capExtra, _ := atoiU(arg(6))
+		mode := arg(7)
+		return guard(func() string {
+			if _, err := c.codec(); err != nil {
+				return "err"
+			}
+			pv, err := c.newValue(v)
+			if err != nil {
+				return "bad-op " + err.Error()
+			}
+			buf := make([]byte, len(pre), len(pre)+int(capExtra))
+			copy(buf, pre)
+			var iface interface{} = pv.Interface()
+			if mode == "val" {
+				iface = pv.Elem().Interface()
+			}
+			out, err := c.p.Marshal(buf, iface)
+			if err != nil {
+				return "err"
+			}
+			return "ok " + hx(out)
+		})
+	case "evolve":
+		// (evolve cfg S S' V PRIOR)
+		if len(s.List) != 6 {
+			return "bad-op"
+		}
+		p, _, err := instance(s.List[1])
+		if err != nil {
+			return "bad-op " + err.Error()
+		}
+		td, e1 := parseTyDef(s.List[2])
+		td2, e2 := parseTyDef(s.List[3])
+		v, e3 := parseVal(s.List[4])
+		if e1 != nil || e2 != nil || e3 != nil {
+			return "bad-op"
+		}
+		var prior *Val
+		if s.List[5].IsL {
+			prior, err = parseVal(s.List[5])
+			if err != nil {
+				return "bad-op"
+			}
+		}
+		return guard(func() string {
+			rt1, e1 := td.RT()
+			rt2, e2 := td2.RT()
+			if e1 != nil || e2 != nil {
+				return "bad-op rt"
+			}
+			if _, err := p.CodecForType(rt1); err != nil {
+				return "builderr"
+			}
+			if _, err := p.CodecForType(rt2); err != nil {
+				return "builderr"
+			}
+			src := reflect.New(rt1)
+			if err := v.ToReflect(src.Elem(), td); err != nil {
+				return "bad-op " + err.Error()
+			}
+			data, err := p.Marshal(nil, src.Interface())
+			if err != nil {
+				return "err"
+			}
+			dst := reflect.New(rt2)
+			if prior != nil {
+				if err := prior.ToReflect(dst.Elem(), td2); err != nil {
+					return "bad-op " + err.Error()
+				}
+			}
+			if err := p.Unmarshal(data, dst.Interface()); err != nil {
+				return "err"
+			}
+			return "ok " + FromReflect(dst.Elem(), td2).String()
+		})
+	case "xdec":
+		if len(s.List) != 5 {
+			return "bad-op"
+		}
+		pe, _, e1 := instance(s.List[1])
+		pd, _, e2 := instance(s.List[2])
+		td, e3 := parseTyDef(s.List[3])
+		v, e4 := parseVal(s.List[4])
+		if e1 != nil || e2 != nil || e3 != nil || e4 != nil {
+			return "bad-op"
+		}
+		return guard(func() string {
+			rt, err := td.RT()
+			if err != nil {
+				return "bad-op rt"
+			}
+			if _, err := pe.CodecForType(rt); err != nil {
+				return "builderr"
+			}
+			if _, err := pd.CodecForType(rt); err != nil {
+				return "builderr"
+			}
+			src := reflect.New(rt)
+			if err := v.ToReflect(src.Elem(), td); err != nil {
+				return "bad-op " + err.Error()
+			}
+			data, err := pe.Marshal(nil, src.Interface())
+			if err != nil {
+				return "err"
+			}
+			dst := reflect.New(rt)
+			if err := pd.Unmarshal(data, dst.Interface()); err != nil {
+				return "err"
+			}
+			return "ok " + FromReflect(dst.Elem(), td).String()
+		})
 	case "laws":
 		c, err := parseCtx(s)
 		if err != nil {
